@@ -342,7 +342,7 @@ Notation rtril := (tril R 0).
 Notation rcov2corr := (cov2corr R 0 Rmult Rdiv sqrt ris0).
 Notation rcorr2cov := (corr2cov R 0 Rplus Rmult).
 Notation rse_from_cov := (se_from_cov R 0 sqrt).
-Notation rscale := (scale_matrix R 0 Rplus Rminus Rmult Rdiv exp Rabs 10 (/ 10)).
+Notation rscale := (scale_matrix R 0 Rplus Rminus Rmult Rdiv exp 10 (/ 10)).
 Notation rdescale := (descale_matrix R 0 Rplus Rmult exp).
 Notation rtheta_scale := (theta_scale R 1 Rminus Rdiv ln (/ 10)).
 Notation rtheta_descale := (theta_descale R 1 Rplus Rminus Rmult Rdiv exp).
@@ -572,14 +572,10 @@ Proof. intros Hi Hj. unfold transpose. rewrite rget_rtab by assumption. reflexiv
 Lemma rtranspose_length A : length (rtranspose A) = length A.
 Proof. unfold transpose. apply rtab_length. Qed.
 
-(* the off-diagonal absolute values that _scale_matrix introduces *)
-Definition absoff (L : list (list R)) : list (list R) :=
-  rtab (length L) (length L) (fun i j => if j <? i then Rabs (rget L i j) else if Nat.eqb i j then rget L i j else 0%R).
-
 Lemma rget_scale L i j : i < length L -> j < length L ->
   rget (rscale L) i j =
   if Nat.eqb i j then (rget L i i / exp (/ 10))%R
-  else if j <? i then Rabs (10 * rget L i j) else Rabs (10 * rget L j i).
+  else if j <? i then (10 * rget L i j)%R else (10 * rget L j i)%R.
 Proof.
   intros Hi Hj. unfold scale_matrix.
   rewrite rget_rtab by assumption.
@@ -588,9 +584,9 @@ Proof.
   assert (Hv1 : length (rdiagv M1) = length L) by (rewrite rdiagv_length; exact HM1).
   assert (Entry : forall a b, a < length L -> b < length L -> b <= a ->
      rget (rtab (length L) (length L)
-       (fun i j => (Rabs (10 * (rget M1 i j - rget (rdiagm (rdiagv M1)) i j)) +
+       (fun i j => (10 * (rget M1 i j - rget (rdiagm (rdiagv M1)) i j) +
                     rget (rdiagm (map (fun x => x / exp (/ 10)) (rdiagv M1))) i j))%R) a b =
-     if Nat.eqb a b then (rget L a a / exp (/ 10))%R else Rabs (10 * rget L a b)).
+     if Nat.eqb a b then (rget L a a / exp (/ 10))%R else (10 * rget L a b)%R).
   { intros a b Ha Hb Hab. rewrite rget_rtab by assumption.
     rewrite !rget_diagm by (rewrite ?map_length, Hv1; assumption).
     unfold M1 at 1. rewrite rget_tril by assumption.
@@ -599,9 +595,8 @@ Proof.
     - rewrite rdiagv_nth by (rewrite HM1; exact Hb). unfold M1. rewrite rget_tril by assumption. rewrite Nat.leb_refl.
       rewrite (nth_indep _ 0%R (0 / exp (/ 10))%R) by (rewrite map_length, rdiagv_length, rtril_length; exact Hb).
       rewrite (map_nth (fun x => (x / exp (/ 10))%R)). rewrite rdiagv_nth by (rewrite rtril_length; exact Hb).
-      rewrite rget_tril by assumption. rewrite Nat.leb_refl.
-      replace (rget L b b - rget L b b)%R with 0%R by lra. rewrite Rmult_0_r, Rabs_R0. lra.
-    - rewrite Rminus_0_r, Rplus_0_r. reflexivity. }
+      rewrite rget_tril by assumption. rewrite Nat.leb_refl. lra.
+    - lra. }
   destruct (Nat.ltb_spec i j) as [Hlt|Hge].
   - rewrite Entry by lia. destruct (Nat.eqb_spec j i); [lia|]. destruct (Nat.eqb_spec i j); [lia|].
     destruct (Nat.ltb_spec j i); [lia|]. reflexivity.
@@ -611,66 +606,41 @@ Qed.
 Lemma rscale_length L : length (rscale L) = length L.
 Proof. unfold scale_matrix. apply rtab_length. Qed.
 
-(* the lower triangle that _descale_matrix multiplies with its transpose *)
+(* the lower triangle that _descale_matrix multiplies with its transpose: the Cholesky factor itself *)
 Lemma descale_lower (U L : list (list R)) i j : length U = length L ->
+  (forall a b, a < b -> b < length L -> rget L a b = 0%R) ->
   (forall k, k < length L -> rget U k k = (/ 10)%R) ->
   (forall a b, b < a -> a < length L -> rget U a b = (/ 10)%R \/ rget L a b = 0%R) ->
   i < length L -> j < length L ->
   rget (rtril (rtab (length U) (length U)
      (fun i j => (rget (rtab (length U) (length U) (fun i j => if Nat.eqb i j then exp (rget U i i) else rget U i j)) i j *
-                  rget (rscale L) i j)%R))) i j =
-  if j <? i then Rabs (rget L i j) else if Nat.eqb i j then rget L i j else 0%R.
+                  rget (rscale L) i j)%R))) i j = rget L i j.
 Proof.
-  intros Hl Hd Ho Hi Hj. rewrite rget_tril by (rewrite rtab_length, Hl; assumption).
+  intros Hl Hlow Hd Ho Hi Hj. rewrite rget_tril by (rewrite rtab_length, Hl; assumption).
   destruct (Nat.leb_spec j i) as [Hle|Hgt].
   - rewrite !rget_rtab by (rewrite Hl; assumption). rewrite rget_scale by assumption.
     destruct (Nat.eqb_spec i j) as [->|Hne].
-    + destruct (Nat.ltb_spec j j); [lia|]. rewrite (Hd j Hj). field. apply Rgt_not_eq. apply exp_pos.
+    + rewrite (Hd j Hj). field. apply Rgt_not_eq. apply exp_pos.
     + destruct (Nat.ltb_spec j i); [|lia].
-      destruct (Ho i j ltac:(lia) Hi) as [HU|HL].
-      * rewrite HU, Rabs_mult, (Rabs_right 10) by lra. lra.
-      * rewrite HL, Rmult_0_r, Rabs_R0. lra.
-  - destruct (Nat.ltb_spec j i); [lia|]. destruct (Nat.eqb_spec i j); [lia | reflexivity].
+      destruct (Ho i j ltac:(lia) Hi) as [HU|HL]; [rewrite HU; lra | rewrite HL; lra].
+  - symmetry. apply Hlow; lia.
 Qed.
 
-Lemma ucp_general_lemma (U L : list (list R)) i j : length U = length L ->
-  (forall k, k < length L -> rget U k k = (/ 10)%R) ->
-  (forall a b, b < a -> a < length L -> rget U a b = (/ 10)%R \/ rget L a b = 0%R) ->
-  i < length L -> j < length L ->
-  rget (rdescale U (rscale L)) i j = rget (rmmul (absoff L) (rtranspose (absoff L))) i j.
-Proof.
-  intros Hl Hd Ho Hi Hj. unfold descale_matrix.
-  set (M3 := rtril _).
-  assert (HM3 : length M3 = length L) by (unfold M3; rewrite rtril_length, rtab_length; exact Hl).
-  assert (HA : length (absoff L) = length L) by (unfold absoff; apply rtab_length).
-  rewrite !rget_mmul by (rewrite ?HM3, ?HA; assumption). rewrite HM3, HA.
-  apply rsum_ext. intros k Hk. apply in_seq in Hk.
-  rewrite !rget_transpose by (rewrite ?HM3, ?HA; lia).
-  unfold M3. rewrite !(descale_lower U L) by (try assumption; lia).
-  unfold absoff. rewrite !rget_rtab by lia. reflexivity.
-Qed.
-
-(* non-negative sub-diagonal Cholesky entries: the round trip gives back L L^T *)
+(* the round trip gives back L L^T — no sign condition any more *)
 Lemma ucp_inverse_lemma (U L : list (list R)) i j : length U = length L ->
   (forall a b, a < b -> b < length L -> rget L a b = 0%R) ->
   (forall k, k < length L -> rget U k k = (/ 10)%R) ->
-  (forall a b, b < a -> a < length L -> (rget U a b = (/ 10)%R /\ (0 <= rget L a b)%R) \/ rget L a b = 0%R) ->
+  (forall a b, b < a -> a < length L -> rget U a b = (/ 10)%R \/ rget L a b = 0%R) ->
   i < length L -> j < length L ->
   rget (rdescale U (rscale L)) i j = rget (rmmul L (rtranspose L)) i j.
 Proof.
-  intros Hl Hlow Hd Ho Hi Hj.
-  rewrite ucp_general_lemma; try assumption.
-  2:{ intros a b Hab Ha. destruct (Ho a b Hab Ha) as [[H _]|H]; auto. }
-  assert (HA : length (absoff L) = length L) by (unfold absoff; apply rtab_length).
-  rewrite !rget_mmul by (rewrite ?HA; assumption). rewrite HA.
+  intros Hl Hlow Hd Ho Hi Hj. unfold descale_matrix.
+  set (M3 := rtril _).
+  assert (HM3 : length M3 = length L) by (unfold M3; rewrite rtril_length, rtab_length; exact Hl).
+  rewrite !rget_mmul by (rewrite ?HM3; assumption). rewrite HM3.
   apply rsum_ext. intros k Hk. apply in_seq in Hk.
-  rewrite !rget_transpose by (rewrite ?HA; lia).
-  assert (G : forall a b, a < length L -> b < length L -> rget (absoff L) a b = rget L a b).
-  { intros a b Ha Hb. unfold absoff. rewrite rget_rtab by assumption.
-    destruct (Nat.ltb_spec b a) as [Hlt|Hge].
-    - destruct (Ho a b Hlt Ha) as [[_ H]|H]; [apply Rabs_right; lra | rewrite H; apply Rabs_R0].
-    - destruct (Nat.eqb_spec a b) as [->|Hne]; [reflexivity|]. symmetry. apply Hlow; lia. }
-  rewrite !G by lia. reflexivity.
+  rewrite !rget_transpose by (rewrite ?HM3; lia).
+  unfold M3. rewrite !(descale_lower U L) by (try assumption; lia). reflexivity.
 Qed.
 
 (* ---- theta part --------------------------------------------------------------------------------- *)
